@@ -1,5 +1,6 @@
 import CattrsModel.Sexp
 import CattrsModel.Dispatch.Model
+import CattrsModel.Dispatch.StoreHist
 import CattrsModel.Dispatch.Locs
 import CattrsModel.Dispatch.Sig
 /-!
@@ -7,6 +8,9 @@ import CattrsModel.Dispatch.Sig
 
 `RUNHIST <facts> (<cfg>…) (<sop>…)`  → `(ok <reply>…)`, one reply per `<sop>`
 `SPEC <facts> <cfg> (<op>…) (<type key>…)` → `(ok <hook>…)`, `spec F cfg ops t` for every listed key
+`SPECSTORE <facts> (<cfg>…) (<sop>…) ((<converter index> <type key>…)…)` → `(ok (<hook>…)…)`: for every listed converter of
+  the store history, `spec F o.cfg o.hist t` with `o` = its entry in `origins cfgs sops` (the right-hand side of theorem
+  C07_precedence_store: the documented rule applied to the converter's OWN construction and history, copies included)
 `LOCS <facts> (<cfg>…) (<sop>…)` → `(ok (<single> <preds> <union> <direct> <lru>)… )`: the same store history on the
   identity layer (`Locs.hrun` from `HStore.fresh`); for every converter of the final store the locations of its class
   registry, predicate list, union registry, direct table and lru cache (theorem C18_no_shared_locations: no two
@@ -198,6 +202,18 @@ def dispatchHandle (op : String) (args : List Sexp) : Option Sexp :=
         let σ := Locs.hrun d.toFacts (Locs.HStore.fresh cfgs) sops
         some (.list (.atom "ok" :: σ.convs.map (fun c => .list (c.locs.map ofNat))))
     | _, _, _ => some (err "bad-args")
+  | "SPECSTORE", [fx, .list cfgs, .list sops, .list rows] =>
+    match factsDataOfSexp fx, cfgs.mapM cfgOfSexp, sops.mapM sopOfSexp, rows.mapM row? with
+    | some d, some cfgs, some sops, some rows =>
+      if !d.wf then some (err "facts-rank-not-decreasing")
+      else
+        let os := origins cfgs sops
+        match rows.mapM (fun (r : Nat × List Nat) => os[r.1]?.map (fun o => (o, r.2))) with
+        | some ors =>
+          some (.list (.atom "ok" :: ors.map (fun (p : Origin × List Nat) =>
+            .list (p.2.map (fun k => sexpOfHook (spec d.toFacts p.1.cfg p.1.hist k))))))
+        | none => some (err "no-such-converter")
+    | _, _, _, _ => some (err "bad-args")
   | "SIGKIND", [.list ps] =>
     match ps.mapM paramOfSexp with
     | some s =>
